@@ -61,7 +61,7 @@ def run_mir(tier, seed):
     import sys, pathlib
     sys.path.insert(0, str(pathlib.Path(__file__).resolve().parent.parent.parent / "mirsmt"))
     import mir_check, dn
-    return mir_check.run_obligations([dn.ob_write_dn, dn.ob_subtrees, dn.ob_san])
+    return mir_check.run_obligations([dn.ob_write_dn, dn.ob_subtrees, dn.ob_san, dn.ob_ext_presence])
 
 
 def spec(tier, seed):
